@@ -1,23 +1,130 @@
-(* Proofs/TranslateProofs.v — C02: pieces of the round trip through the sidecar proxy. *)
-From KV Require Import Base.Util Model.Inject Model.Translate.
+(* Proofs/TranslateProofs.v — C02: label-set algebra (pointwise, no ordering assumptions) and the pieces of the round
+   trip through coordinator, sidecar, shard and proxy. *)
+From KV Require Import Base.Util Model.Inject Model.Translate Proofs.InjectProofs.
+From Coq Require Import Permutation.
 Local Open Scope list_scope.
 Local Open Scope string_scope.
 
-(* translateURL's filter forgets an inserted routing key and nothing else *)
-Lemma filter_qset_routing k f q :
-  routing k = true ->
-  filter (fun kv => negb (routing (fst kv))) (qset k f q) = filter (fun kv => negb (routing (fst kv))) q.
+(* ------------------------------------------------------------------ lookups *)
+Lemma lget_filter_key (P : string -> bool) k m :
+  lget k (filter (fun kv => P (fst kv)) m) = if P k then lget k m else None.
 Proof.
-  intros Hk. induction q as [|[k' vs] r IH]; cbn [qset filter fst].
-  - now rewrite Hk.
-  - destruct (String.eqb_spec k k') as [->|Hne].
-    + cbn [filter fst]. now rewrite Hk.
-    + destruct (String.ltb k k'); cbn [filter fst].
-      * now rewrite Hk.
-      * destruct (negb (routing k')); [f_equal|]; exact IH.
+  induction m as [|[k' v] r IH]; simpl; [now destruct (P k)|].
+  destruct (P k') eqn:Ek'; simpl.
+  - destruct (String.eqb_spec k k') as [->|Hne]; [now rewrite Ek'|exact IH].
+  - destruct (String.eqb_spec k k') as [->|Hne]; [now rewrite IH, Ek'|exact IH].
 Qed.
 
-(* the proxy gives the request its scheme back and leaves host and path alone *)
+Lemma lval_filter_key (P : string -> bool) k m :
+  lval k (filter (fun kv => P (fst kv)) m) = if P k then lval k m else "".
+Proof. unfold lval. rewrite lget_filter_key. now destruct (P k). Qed.
+
+Lemma lval_ldel k k' m : lval k' (ldel k m) = if String.eqb k' k then "" else lval k' m.
+Proof.
+  unfold ldel. rewrite (lval_filter_key (fun x => negb (String.eqb x k))).
+  now destruct (String.eqb k' k).
+Qed.
+
+Lemma lval_lb_set k v k' m : lval k' (lb_set k v m) = if String.eqb k' k then v else lval k' m.
+Proof.
+  unfold lb_set. destruct (String.eqb_spec v "") as [->|Hv].
+  - apply lval_ldel.
+  - unfold lval at 1. simpl. destruct (String.eqb_spec k' k) as [->|Hne]; [reflexivity|].
+    fold (lval k' (ldel k m)). rewrite lval_ldel. destruct (String.eqb_spec k' k); [contradiction|reflexivity].
+Qed.
+
+Lemma lval_del_meta k m : lval k (del_meta m) = if has_prefix "__meta_" k then "" else lval k m.
+Proof.
+  unfold del_meta. rewrite (lval_filter_key (fun x => negb (has_prefix "__meta_" x))).
+  now destruct (has_prefix "__meta_" k).
+Qed.
+
+Lemma lval_set_if_empty k v orig m k' :
+  lval k' (set_if_empty k v orig m) = if String.eqb (lval k orig) "" then (if String.eqb k' k then v else lval k' m) else lval k' m.
+Proof. unfold set_if_empty. destruct (String.eqb (lval k orig) ""); [apply lval_lb_set|reflexivity]. Qed.
+
+(* unique names *)
+Definition nd (m : labels) : Prop := NoDup (map fst m).
+
+Lemma nd_filter (f : string * string -> bool) m : nd m -> nd (filter f m).
+Proof.
+  unfold nd. induction m as [|kv r IH]; simpl; [auto|]. intros H. inversion H as [|? ? Hn Hr]; subst.
+  destruct (f kv); simpl; [|auto]. constructor; [|auto].
+  intros Hin. apply Hn. apply in_map_iff in Hin. destruct Hin as [x [Hx Hin]]. apply filter_In in Hin.
+  apply in_map_iff. exists x. tauto.
+Qed.
+
+Lemma nd_ldel k m : nd m -> nd (ldel k m).
+Proof. apply nd_filter. Qed.
+
+Lemma nd_lb_set k v m : nd m -> nd (lb_set k v m).
+Proof.
+  intros H. unfold lb_set. destruct (String.eqb v ""); [now apply nd_ldel|].
+  unfold nd. simpl. constructor; [|now apply nd_ldel].
+  intros Hin. apply in_map_iff in Hin. destruct Hin as [[k' v'] [Hk Hin]]. simpl in Hk. subst k'.
+  unfold ldel in Hin. apply filter_In in Hin. simpl in Hin. rewrite String.eqb_refl in Hin. destruct Hin. discriminate.
+Qed.
+
+Lemma nd_set_if_empty k v orig m : nd m -> nd (set_if_empty k v orig m).
+Proof. intros H. unfold set_if_empty. destruct (String.eqb _ _); [now apply nd_lb_set|exact H]. Qed.
+
+Lemma nd_set_params ps : forall m, nd m -> nd (set_params ps m).
+Proof.
+  unfold set_params. induction ps as [|[k vs] r IH]; intros m H; simpl; [exact H|].
+  apply IH. destruct vs; [exact H|now apply nd_lb_set].
+Qed.
+
+(* with unique names the first entry is the only one: lookups do not depend on the order *)
+Lemma lget_in_nd k v m : nd m -> In (k, v) m -> lget k m = Some v.
+Proof.
+  unfold nd. induction m as [|[k' v'] r IH]; simpl; [tauto|]. intros H [Hin|Hin].
+  - injection Hin as -> ->. now rewrite String.eqb_refl.
+  - inversion H as [|? ? Hn Hr]; subst. destruct (String.eqb_spec k k') as [->|]; [|auto].
+    exfalso. apply Hn. apply in_map_iff. exists (k', v). auto.
+Qed.
+
+Lemma lget_some_in k v m : lget k m = Some v -> In (k, v) m.
+Proof.
+  induction m as [|[k' v'] r IH]; simpl; [discriminate|].
+  destruct (String.eqb_spec k k') as [->|]; [intros [= ->]; auto | auto].
+Qed.
+
+Lemma lget_perm k m m' : nd m -> Permutation m m' -> lget k m = lget k m'.
+Proof.
+  intros Hnd Hp. assert (Hnd' : nd m') by (unfold nd in *; eapply Permutation_NoDup; [apply Permutation_map; exact Hp|exact Hnd]).
+  destruct (lget k m) as [v|] eqn:E.
+  - symmetry. apply lget_in_nd; [exact Hnd'|]. eapply Permutation_in; [exact Hp|]. now apply lget_some_in.
+  - destruct (lget k m') as [v'|] eqn:E'; [|reflexivity].
+    apply lget_some_in in E'. apply (Permutation_in _ (Permutation_sym Hp)) in E'.
+    apply (lget_in_nd _ _ _ Hnd) in E'. congruence.
+Qed.
+
+(* of_labels (name order) keeps the lookups of a set with unique names *)
+Lemma lastv_nd k m : nd m -> lastv k m = lget k m.
+Proof.
+  induction m as [|[k' v'] r IH] using rev_ind; [reflexivity|].
+  intros Hall. assert (Hr : nd r).
+  { unfold nd in *. rewrite map_app in Hall. simpl in Hall. apply NoDup_remove_1 in Hall. now rewrite app_nil_r in Hall. }
+  rewrite lastv_snoc. cbn [fst snd]. destruct (String.eqb_spec k' k) as [->|Hne].
+  - symmetry. apply lget_in_nd; [exact Hall|]. apply in_or_app. right. left. reflexivity.
+  - rewrite IH by exact Hr. clear -Hne. induction r as [|[a b] r IHr]; simpl.
+    + destruct (String.eqb_spec k k'); [congruence|reflexivity].
+    + destruct (String.eqb k a); [reflexivity|exact IHr].
+Qed.
+
+Lemma NoDup_app_comm' {A} (a b : list A) : NoDup (a ++ b) -> NoDup (b ++ a).
+Proof. intros H. eapply Permutation_NoDup; [apply Permutation_app_comm|exact H]. Qed.
+
+Lemma lval_of_labels k m : nd m -> lval k (of_labels m) = lval k m.
+Proof. intros H. unfold lval. now rewrite lget_of_labels, lastv_nd. Qed.
+
+Lemma lval_visible k m : nd m -> lval k (visible m) = if has_prefix "__" k then "" else lval k m.
+Proof.
+  intros H. unfold visible. rewrite lval_of_labels by (now apply nd_filter).
+  rewrite (lval_filter_key (fun x => negb (has_prefix "__" x))). now destruct (has_prefix "__" k).
+Qed.
+
+(* ------------------------------------------------------------------ the proxy *)
 Lemma translate_url_fields u :
   u_host (translate_url u) = u_host u /\ u_path (translate_url u) = u_path u /\
   u_scheme (translate_url u) = qget "_scheme" (u_query u) /\
@@ -28,7 +135,33 @@ Proof.
   intros kv. rewrite filter_In, negb_true_iff. reflexivity.
 Qed.
 
-(* a label the job's params would reset is shipped under the prefix exactly when relabeling changed it *)
+Lemma qval_filter_key (P : string -> bool) k q :
+  qval k (filter (fun kv => P (fst kv)) q) = if P k then qval k q else [].
+Proof.
+  unfold qval. induction q as [|[k' v] r IH]; simpl; [now destruct (P k)|].
+  destruct (P k') eqn:Ek'; simpl.
+  - destruct (String.eqb_spec k' k) as [->|Hne]; [now rewrite Ek'|exact IH].
+  - destruct (String.eqb_spec k' k) as [->|Hne]; [now rewrite IH, Ek'|exact IH].
+Qed.
+
+Lemma qval_qset k f q k' : qval k' (qset k f q) = if String.eqb k' k then f (qval k q) else qval k' q.
+Proof.
+  unfold qset. unfold qval at 1. simpl. destruct (String.eqb_spec k k') as [->|Hne].
+  - now rewrite String.eqb_refl.
+  - destruct (String.eqb_spec k' k); [congruence|].
+    fold (qval k' (filter (fun kv : string * list string => negb (String.eqb (fst kv) k)) q)).
+    rewrite (qval_filter_key (fun x => negb (String.eqb x k))).
+    destruct (String.eqb_spec k' k); [congruence|reflexivity].
+Qed.
+
+(* the proxy's filter: routing keys vanish, every other key keeps its values *)
+Lemma qval_translate k u : qval k (u_query (translate_url u)) = if routing k then [] else qval k (u_query u).
+Proof.
+  unfold translate_url. cbn [u_query]. rewrite (qval_filter_key (fun x => negb (routing x))). now destruct (routing k).
+Qed.
+
+(* a parameter the job configures: dropped from the shipped labels when it still has the job's value, shipped under the
+   prefix when relabeling changed it *)
 Lemma shipped_param_rule ps k v :
   without_config_param ps [("__param_" ++ k, v)] =
   match find (fun p => String.eqb (fst p) (drop_prefix "__param_" ("__param_" ++ k))) ps with
@@ -42,4 +175,352 @@ Proof.
     destruct k; reflexivity. }
   rewrite Hp. destruct (find _ ps) as [[a [|v0 vs]]|]; try reflexivity.
   destruct (String.eqb v v0); reflexivity.
+Qed.
+
+(* ------------------------------------------------------------------ strings *)
+Lemma prefix_drop p : forall s, has_prefix p s = true -> s = p ++ drop_prefix p s.
+Proof.
+  unfold has_prefix, drop_prefix. induction p as [|c p IH]; intros s H; simpl.
+  - rewrite Nat.sub_0_r. clear H. induction s as [|d s IHs]; simpl; [reflexivity|]. now rewrite <- IHs.
+  - destruct s as [|d s]; simpl in H; [discriminate|]. destruct (Ascii.ascii_dec c d) as [->|]; [|discriminate].
+    simpl. f_equal. apply IH. exact H.
+Qed.
+
+Lemma has_prefix_app p s : has_prefix p (p ++ s) = true.
+Proof.
+  unfold has_prefix. induction p as [|c p IH]; simpl; [destruct s; reflexivity|].
+  destruct (Ascii.ascii_dec c c); [exact IH|congruence].
+Qed.
+
+Lemma app_inj_l p : forall a b, p ++ a = p ++ b -> a = b.
+Proof. induction p as [|c p IH]; simpl; intros a b H; [exact H|]. injection H as H. now apply IH. Qed.
+
+Lemma drop_prefix_app p s : drop_prefix p (p ++ s) = s.
+Proof. apply (app_inj_l p). symmetry. apply prefix_drop. apply has_prefix_app. Qed.
+
+Lemma append_nil_r s : s ++ "" = s.
+Proof. induction s as [|c s IH]; simpl; [reflexivity|now rewrite IH]. Qed.
+
+Lemma length_append a b : String.length (a ++ b) = (String.length a + String.length b)%nat.
+Proof. induction a as [|c a IH]; simpl; [reflexivity|now rewrite IH]. Qed.
+
+(* ------------------------------------------------------------------ the job's params as labels *)
+Fixpoint pfirst (ps : list (string * list string)) (k : string) : option string :=
+  match ps with
+  | [] => None
+  | (x, vs) :: r =>
+    match pfirst r k with
+    | Some v => Some v
+    | None => match vs with v0 :: _ => if String.eqb k ("__param_" ++ x) then Some v0 else None | [] => None end
+    end
+  end.
+
+Lemma lval_set_params ps k : forall m, lval k (set_params ps m) = match pfirst ps k with Some v => v | None => lval k m end.
+Proof.
+  unfold set_params. induction ps as [|[x vs] r IH]; intros m; [reflexivity|].
+  cbn [fold_left pfirst fst snd]. rewrite IH. destruct (pfirst r k); [reflexivity|].
+  destruct vs as [|v0 vs]; [reflexivity|]. rewrite lval_lb_set. now destruct (String.eqb k _).
+Qed.
+
+(* ------------------------------------------------------------------ the query *)
+Definition ndq (q : list (string * list string)) : Prop := NoDup (map fst q).
+
+Lemma ndq_qset k f q : ndq q -> ndq (qset k f q).
+Proof.
+  intros H. unfold ndq, qset. simpl. constructor.
+  - intros Hin. apply in_map_iff in Hin. destruct Hin as [[k' v'] [Hk Hin]]. simpl in Hk. subst k'.
+    apply filter_In in Hin. simpl in Hin. rewrite String.eqb_refl in Hin. destruct Hin. discriminate.
+  - clear f. unfold ndq in H. induction q as [|kv r IH]; simpl; [constructor|]. inversion H as [|? ? Hn Hr]; subst.
+    destruct (negb _); simpl; [|auto]. constructor; [|auto].
+    intros Hin. apply Hn. apply in_map_iff in Hin. destruct Hin as [x [Hx Hin]]. apply filter_In in Hin.
+    apply in_map_iff. exists x. tauto.
+Qed.
+
+Lemma ndq_url_query ps l : ndq ps -> ndq (url_query ps l).
+Proof.
+  unfold url_query. revert ps. induction l as [|kv r IH]; intros ps H; simpl; [exact H|].
+  apply IH. destruct (has_prefix _ _); [now apply ndq_qset|exact H].
+Qed.
+
+Lemma qval_url_query x l : forall ps, nd l ->
+  qval x (url_query ps l) = match lget ("__param_" ++ x) l with Some v => v :: tl (qval x ps) | None => qval x ps end.
+Proof.
+  unfold url_query. induction l as [|[k1 v1] r IH]; intros ps Hnd; [reflexivity|].
+  assert (Hr : nd r) by (unfold nd in *; simpl in Hnd; now inversion Hnd).
+  cbn [fold_left fst snd]. rewrite IH by exact Hr. cbn [lget].
+  destruct (String.eqb_spec ("__param_" ++ x) k1) as [<-|Hne].
+  - (* this entry is the label of x; by uniqueness no later one is *)
+    rewrite has_prefix_app, drop_prefix_app.
+    assert (Hnone : lget ("__param_" ++ x) r = None).
+    { destruct (lget ("__param_" ++ x) r) as [v|] eqn:E; [|reflexivity]. exfalso.
+      apply lget_some_in in E. unfold nd in Hnd. simpl in Hnd. inversion Hnd as [|? ? Hn _]; subst.
+      apply Hn. apply in_map_iff. exists ("__param_" ++ x, v). auto. }
+    rewrite Hnone, qval_qset, String.eqb_refl. reflexivity.
+  - assert (Hq : qval x (if has_prefix "__param_" k1 then qset (drop_prefix "__param_" k1) (fun vs => v1 :: tl vs) ps else ps) = qval x ps).
+    { destruct (has_prefix "__param_" k1) eqn:Ep; [|reflexivity]. rewrite qval_qset.
+      destruct (String.eqb_spec x (drop_prefix "__param_" k1)) as [->|]; [|reflexivity].
+      exfalso. apply Hne. symmetry. now apply prefix_drop. }
+    rewrite Hq. reflexivity.
+Qed.
+
+Lemma qval_in_ndq k vs q : ndq q -> In (k, vs) q -> qval k q = vs.
+Proof.
+  unfold ndq, qval. induction q as [|[k' v'] r IH]; simpl; [tauto|]. intros H [Hin|Hin].
+  - injection Hin as -> ->. now rewrite String.eqb_refl.
+  - inversion H as [|? ? Hn Hr]; subst. destruct (String.eqb_spec k' k) as [->|]; [|auto].
+    exfalso. apply Hn. apply in_map_iff. exists (k, vs). auto.
+Qed.
+
+Lemma qval_perm k q q' : ndq q -> Permutation q q' -> qval k q = qval k q'.
+Proof.
+  intros Hnd Hp. assert (Hnd' : ndq q') by (unfold ndq in *; eapply Permutation_NoDup; [apply Permutation_map; exact Hp|exact Hnd]).
+  unfold qval at 1. destruct (find _ q) as [[k0 vs]|] eqn:E.
+  - apply find_some in E. destruct E as [Hin He]. simpl in He. apply String.eqb_eq in He. subst k0.
+    symmetry. apply qval_in_ndq; [exact Hnd'|]. eapply Permutation_in; eauto.
+  - unfold qval. destruct (find _ q') as [[k0 vs]|] eqn:E'; [|reflexivity].
+    apply find_some in E'. destruct E' as [Hin He]. simpl in He. apply String.eqb_eq in He. subst k0.
+    apply (Permutation_in _ (Permutation_sym Hp)) in Hin.
+    pose proof (find_none _ _ E _ Hin) as Hf. simpl in Hf. now rewrite String.eqb_refl in Hf.
+Qed.
+
+Lemma qinsert_perm x q : Permutation (qinsert x q) (x :: q).
+Proof.
+  induction q as [|y r IH]; simpl; [reflexivity|]. destruct (String.ltb _ _); [reflexivity|].
+  rewrite IH. apply perm_swap.
+Qed.
+Lemma sort_query_perm q : Permutation (sort_query q) q.
+Proof. induction q as [|x r IH]; simpl; [reflexivity|]. rewrite qinsert_perm. now constructor. Qed.
+
+Lemma ndq_filter (f : string * list string -> bool) q : ndq q -> ndq (filter f q).
+Proof.
+  unfold ndq. induction q as [|kv r IH]; simpl; [auto|]. intros H. inversion H as [|? ? Hn Hr]; subst.
+  destruct (f kv); simpl; [|auto]. constructor; [|auto].
+  intros Hin. apply Hn. apply in_map_iff in Hin. destruct Hin as [x [Hx Hin]]. apply filter_In in Hin.
+  apply in_map_iff. exists x. tauto.
+Qed.
+
+Lemma qval_filter_nonempty k q : ndq q ->
+  qval k (filter (fun kv : string * list string => match snd kv with [] => false | _ => true end) q) = qval k q.
+Proof.
+  unfold ndq, qval. induction q as [|[k' vs] r IH]; simpl; [reflexivity|]. intros H. inversion H as [|? ? Hn Hr]; subst.
+  destruct vs as [|v vs]; simpl.
+  - destruct (String.eqb_spec k' k) as [->|]; [|auto].
+    destruct (find _ (filter _ r)) as [[k0 v0]|] eqn:E; [|reflexivity]. exfalso.
+    apply find_some in E. destruct E as [Hin He]. simpl in He. apply String.eqb_eq in He. subst k0.
+    apply filter_In in Hin. apply Hn. apply in_map_iff. exists (k, v0). tauto.
+  - destruct (String.eqb k' k); [reflexivity|auto].
+Qed.
+
+(* the query of a target, key by key: the job's values with the first one replaced by the target's __param_ label *)
+Lemma qval_target_url x ps l : ndq ps -> nd l ->
+  qval x (u_query (target_url ps l)) =
+  match lget ("__param_" ++ x) l with Some v => v :: tl (qval x ps) | None => qval x ps end.
+Proof.
+  intros Hps Hl. unfold target_url. cbn [u_query].
+  set (q := filter (fun kv : string * list string => match snd kv with [] => false | _ => true end) (url_query ps l)).
+  assert (Hq : ndq q) by (apply ndq_filter; now apply ndq_url_query).
+  rewrite <- (qval_perm x q (sort_query q) Hq (Permutation_sym (sort_query_perm q))).
+  unfold q. rewrite qval_filter_nonempty by (now apply ndq_url_query). now apply qval_url_query.
+Qed.
+
+(* ------------------------------------------------------------------ what is shipped to the sidecar *)
+(* the name an entry is shipped under (None: not shipped) *)
+Definition ship_name (ps : list (string * list string)) (k v : string) : option string :=
+  let n1 := if has_prefix "__param_" k
+            then match find (fun p => String.eqb (fst p) (drop_prefix "__param_" k)) ps with
+                 | Some (_, v0 :: _) => if String.eqb v v0 then None else Some (invalid_prefix ++ k)
+                 | _ => Some k
+                 end
+            else Some k in
+  match n1 with Some n => Some (if valid_name n then n else invalid_prefix ++ n) | None => None end.
+Definition ship1 (ps : list (string * list string)) (kv : string * string) : labels :=
+  match ship_name ps (fst kv) (snd kv) with Some n => [(n, snd kv)] | None => [] end.
+
+Lemma shipped_flat_map ps l : shipped ps l = flat_map (ship1 ps) l.
+Proof.
+  unfold shipped, support_invalid, without_config_param. induction l as [|[k v] r IH]; [reflexivity|].
+  cbn [flat_map]. rewrite map_app, IH. f_equal. unfold ship1, ship_name. cbn [fst snd].
+  assert (Hleaf : forall n, map (fun kv : string * string => if valid_name (fst kv) then kv else (invalid_prefix ++ fst kv, snd kv)) [(n, v)]
+                          = [(if valid_name n then n else invalid_prefix ++ n, v)]).
+  { intros n. cbn [map fst snd]. now destruct (valid_name n). }
+  destruct (has_prefix "__param_" k); [|apply Hleaf].
+  destruct (find _ ps) as [[a vs0]|]; [|apply Hleaf].
+  destruct vs0 as [|v0 vs]; [apply Hleaf|].
+  destruct (String.eqb v v0); [reflexivity|apply Hleaf].
+Qed.
+
+(* where a shipped name comes from *)
+Definition src (k' : string) : string := if has_prefix invalid_prefix k' then drop_prefix invalid_prefix k' else k'.
+
+Lemma all_chars_impl (f g : Ascii.ascii -> bool) s : (forall c, f c = true -> g c = true) -> all_chars f s = true -> all_chars g s = true.
+Proof.
+  intros H. induction s as [|c s IH]; simpl; [auto|]. intros Hc. apply andb_true_iff in Hc. destruct Hc as [H1 H2].
+  apply andb_true_iff. auto.
+Qed.
+
+Lemma valid_prefixed k : valid_name k = true -> valid_name (invalid_prefix ++ k) = true.
+Proof.
+  intros H. unfold invalid_prefix. cbn [String.append valid_name all_chars].
+  destruct k as [|c k]; [discriminate|]. cbn [valid_name] in H. apply andb_true_iff in H. destruct H as [Hc Hk].
+  cbn. rewrite Hk. unfold is_name_char. rewrite Hc. reflexivity.
+Qed.
+
+Record shippable (ps : list (string * list string)) (l : labels) : Prop := {
+  sp_nd : nd l;
+  sp_noprefix : forall k v, In (k, v) l -> has_prefix invalid_prefix k = false;      (* no label already carries the prefix *)
+  sp_param_valid : forall k v, In (k, v) l -> has_prefix "__param_" k = true -> valid_name k = true;
+}.
+
+Lemma ship_name_src ps l k v k' : shippable ps l -> In (k, v) l -> ship_name ps k v = Some k' -> k = src k'.
+Proof.
+  intros Hs Hin. pose proof (sp_noprefix _ _ Hs k v Hin) as Hnp. unfold ship_name, src.
+  assert (Hplain : forall n, n = k -> Some (if valid_name n then n else invalid_prefix ++ n) = Some k' -> k = (if has_prefix invalid_prefix k' then drop_prefix invalid_prefix k' else k')).
+  { intros n -> H. assert (He : (if valid_name k then k else invalid_prefix ++ k) = k') by congruence. rewrite <- He.
+    destruct (valid_name k); [now rewrite Hnp|]. now rewrite has_prefix_app, drop_prefix_app. }
+  destruct (has_prefix "__param_" k) eqn:Ep; [|now apply Hplain].
+  destruct (find _ ps) as [[a [|v0 vs]]|]; try (now apply Hplain).
+  destruct (String.eqb v v0); [discriminate|].
+  rewrite (valid_prefixed k (sp_param_valid _ _ Hs k v Hin Ep)). intros H.
+  assert (He : invalid_prefix ++ k = k') by congruence. rewrite <- He.
+  now rewrite has_prefix_app, drop_prefix_app.
+Qed.
+
+Lemma lget_ship1 ps k v k' : lget k' (ship1 ps (k, v)) = match ship_name ps k v with Some n => if String.eqb k' n then Some v else None | None => None end.
+Proof. unfold ship1. cbn [fst snd]. destruct (ship_name ps k v); reflexivity. Qed.
+
+Lemma lget_app k a b : lget k (a ++ b) = match lget k a with Some v => Some v | None => lget k b end.
+Proof. induction a as [|[k' v'] r IH]; simpl; [reflexivity|]. destruct (String.eqb k k'); auto. Qed.
+
+Lemma shippable_tail ps kv r : shippable ps (kv :: r) -> shippable ps r.
+Proof.
+  intros [H1 H2 H3]. constructor.
+  - unfold nd in *. simpl in H1. now inversion H1.
+  - intros k v Hin. apply (H2 k v). now right.
+  - intros k v Hin. apply (H3 k v). now right.
+Qed.
+
+(* the shipped value of a name, in terms of the labels before shipping *)
+Lemma lget_shipped ps k' : forall l, shippable ps l ->
+  lget k' (flat_map (ship1 ps) l) =
+  match lget (src k') l with
+  | Some v => match ship_name ps (src k') v with Some n => if String.eqb k' n then Some v else None | None => None end
+  | None => None
+  end.
+Proof.
+  induction l as [|[k v] r IH]; intros Hs; [reflexivity|].
+  cbn [flat_map]. rewrite lget_app, lget_ship1. cbn [lget].
+  pose proof (ship_name_src ps ((k, v) :: r) k v) as Hsrc. specialize (IH (shippable_tail _ _ _ Hs)).
+  destruct (String.eqb_spec (src k') k) as [He|Hne].
+  - (* this is the entry the name would come from *)
+    subst k. destruct (ship_name ps (src k') v) as [n|] eqn:En.
+    + destruct (String.eqb k' n); [reflexivity|]. rewrite IH.
+      assert (Hnone : lget (src k') r = None).
+      { destruct (lget (src k') r) as [w|] eqn:E; [|reflexivity]. exfalso. apply lget_some_in in E.
+        pose proof (sp_nd _ _ Hs) as Hnd. unfold nd in Hnd. simpl in Hnd. inversion Hnd as [|? ? Hn _]; subst.
+        apply Hn. apply in_map_iff. exists (src k', w). auto. }
+      now rewrite Hnone.
+    + rewrite IH.
+      assert (Hnone : lget (src k') r = None).
+      { destruct (lget (src k') r) as [w|] eqn:E; [|reflexivity]. exfalso. apply lget_some_in in E.
+        pose proof (sp_nd _ _ Hs) as Hnd. unfold nd in Hnd. simpl in Hnd. inversion Hnd as [|? ? Hn _]; subst.
+        apply Hn. apply in_map_iff. exists (src k', w). auto. }
+      now rewrite Hnone.
+  - (* another entry: it cannot be shipped under this name *)
+    destruct (ship_name ps k v) as [n|] eqn:En; [|exact IH].
+    destruct (String.eqb_spec k' n) as [->|]; [|exact IH].
+    exfalso. apply Hne. symmetry. apply (Hsrc n Hs); [now left|reflexivity].
+Qed.
+
+Lemma nd_shipped ps : forall l, shippable ps l -> nd (flat_map (ship1 ps) l).
+Proof.
+  induction l as [|[k v] r IH]; intros Hs; [constructor|].
+  cbn [flat_map]. specialize (IH (shippable_tail _ _ _ Hs)). unfold ship1 at 1. cbn [fst snd].
+  destruct (ship_name ps k v) as [n|] eqn:En; [|exact IH].
+  unfold nd. simpl. constructor; [|exact IH].
+  intros Hin. apply in_map_iff in Hin. destruct Hin as [[n' w] [Hn Hin]]. simpl in Hn. subst n'.
+  (* (n, w) is shipped from the tail: then its source is k as well, which the tail does not hold *)
+  assert (Hl : lget n (flat_map (ship1 ps) r) = Some w) by (apply lget_in_nd; assumption).
+  rewrite (lget_shipped ps n r (shippable_tail _ _ _ Hs)) in Hl.
+  assert (Hk : k = src n) by (apply (ship_name_src ps ((k, v) :: r) k v n Hs); [now left|exact En]).
+  destruct (lget (src n) r) as [w'|] eqn:E; [|discriminate]. apply lget_some_in in E. rewrite <- Hk in E.
+  pose proof (sp_nd _ _ Hs) as Hnd. unfold nd in Hnd. simpl in Hnd. apply NoDup_cons_iff in Hnd. destruct Hnd as [Hnot _].
+  apply Hnot. apply in_map_iff. exists (k, w'). auto.
+Qed.
+
+(* ------------------------------------------------------------------ no empty values *)
+Definition ne (m : labels) : Prop := forall k v, In (k, v) m -> v <> "".
+
+Lemma ne_filter (f : string * string -> bool) m : ne m -> ne (filter f m).
+Proof. intros H k v Hin. apply filter_In in Hin. apply (H k v). tauto. Qed.
+Lemma ne_lb_set k v m : ne m -> ne (lb_set k v m).
+Proof.
+  intros H. unfold lb_set. destruct (String.eqb_spec v "") as [->|Hv]; [now apply ne_filter|].
+  intros k' v' [Hin|Hin]; [congruence|]. revert Hin. now apply ne_filter.
+Qed.
+Lemma ne_set_if_empty k v orig m : ne m -> ne (set_if_empty k v orig m).
+Proof. intros H. unfold set_if_empty. destruct (String.eqb _ _); [now apply ne_lb_set|exact H]. Qed.
+Lemma ne_set_params ps : forall m, ne m -> ne (set_params ps m).
+Proof.
+  unfold set_params. induction ps as [|[k vs] r IH]; intros m H; simpl; [exact H|].
+  apply IH. destruct vs; [exact H|now apply ne_lb_set].
+Qed.
+Lemma ne_shipped ps l : ne l -> ne (flat_map (ship1 ps) l).
+Proof.
+  intros H k v Hin. apply in_flat_map in Hin. destruct Hin as [[k0 v0] [Hin0 Hin]]. unfold ship1 in Hin. cbn [fst snd] in Hin.
+  destruct (ship_name ps k0 v0); [|contradiction]. destruct Hin as [[= <- <-]|[]]. now apply (H k0 v0).
+Qed.
+
+Lemma lget_of_lval k m : ne m -> lget k m = if String.eqb (lval k m) "" then None else Some (lval k m).
+Proof.
+  intros H. unfold lval. destruct (lget k m) as [v|] eqn:E; [|reflexivity].
+  apply lget_some_in in E. apply H in E. destruct (String.eqb_spec v ""); [contradiction|reflexivity].
+Qed.
+
+(* ------------------------------------------------------------------ the labelmap rule of the generated job *)
+Definition lm_step (m : labels) (kv : string * string) : labels :=
+  if has_prefix invalid_prefix (fst kv) && Nat.ltb (String.length invalid_prefix) (String.length (fst kv))
+  then lb_set (drop_prefix invalid_prefix (fst kv)) (snd kv) m else m.
+
+Lemma labelmap_unfold l : labelmap_invalid l = Some (fold_left lm_step l l).
+Proof. reflexivity. Qed.
+
+Lemma lval_lm_fold k : forall srcl acc, nd srcl ->
+  lval k (fold_left lm_step srcl acc) =
+  match (if String.eqb k "" then None else lget (invalid_prefix ++ k) srcl) with Some v => v | None => lval k acc end.
+Proof.
+  induction srcl as [|[k1 v1] r IH]; intros acc Hnd; [cbn; now destruct (String.eqb k "")|].
+  assert (Hr : nd r) by (unfold nd in *; simpl in Hnd; now inversion Hnd).
+  cbn [fold_left]. rewrite IH by exact Hr. cbn [lget].
+  destruct (String.eqb_spec k "") as [->|Hk].
+  - (* the empty name is never a target of the rule *)
+    unfold lm_step. cbn [fst snd]. destruct (has_prefix invalid_prefix k1 && _) eqn:E; [|reflexivity].
+    rewrite lval_lb_set. destruct (String.eqb_spec "" (drop_prefix invalid_prefix k1)) as [He|]; [|reflexivity].
+    exfalso. apply andb_true_iff in E. destruct E as [E1 E2]. apply Nat.ltb_lt in E2.
+    rewrite (prefix_drop _ _ E1), <- He, append_nil_r in E2. lia.
+  - destruct (String.eqb_spec (invalid_prefix ++ k) k1) as [<-|Hne].
+    + assert (Hnone : lget (invalid_prefix ++ k) r = None).
+      { destruct (lget (invalid_prefix ++ k) r) as [w|] eqn:E; [|reflexivity]. exfalso. apply lget_some_in in E.
+        unfold nd in Hnd. simpl in Hnd. apply NoDup_cons_iff in Hnd. destruct Hnd as [Hn _].
+        apply Hn. apply in_map_iff. exists (invalid_prefix ++ k, w). auto. }
+      rewrite Hnone. unfold lm_step. cbn [fst snd]. rewrite has_prefix_app, drop_prefix_app, length_append.
+      assert (Hl : Nat.ltb (String.length invalid_prefix) (String.length invalid_prefix + String.length k) = true).
+      { apply Nat.ltb_lt. destruct k; [congruence|simpl; lia]. }
+      rewrite Hl. cbn [andb]. rewrite lval_lb_set, String.eqb_refl. reflexivity.
+    + assert (Hsame : lval k (lm_step acc (k1, v1)) = lval k acc).
+      { unfold lm_step. cbn [fst snd]. destruct (has_prefix invalid_prefix k1 && _) eqn:E; [|reflexivity].
+        rewrite lval_lb_set. destruct (String.eqb_spec k (drop_prefix invalid_prefix k1)) as [->|]; [|reflexivity].
+        exfalso. apply Hne. apply andb_true_iff in E. destruct E as [E1 _]. symmetry. now apply prefix_drop. }
+      rewrite Hsame. reflexivity.
+Qed.
+
+Lemma nd_lm_fold : forall srcl acc, nd acc -> nd (fold_left lm_step srcl acc).
+Proof.
+  induction srcl as [|kv r IH]; intros acc H; [exact H|]. cbn [fold_left]. apply IH.
+  unfold lm_step. destruct (_ && _); [now apply nd_lb_set|exact H].
+Qed.
+Lemma ne_lm_fold : forall srcl acc, ne srcl -> ne acc -> ne (fold_left lm_step srcl acc).
+Proof.
+  induction srcl as [|kv r IH]; intros acc Hs H; [exact H|]. cbn [fold_left]. apply IH.
+  - intros k v Hin. apply (Hs k v). now right.
+  - unfold lm_step. destruct (_ && _); [now apply ne_lb_set|exact H].
 Qed.
